@@ -240,11 +240,13 @@ func (r *rrun) rstep(st Step, rejectNext bool) {
 			r.skip(st, "no open delivery / domain already connected")
 			return
 		}
+		r.w.mu.Lock()
+		delete(r.w.reject, c.name+"@"+src+"|"+st.D) // a plan that was never reached must not leak
+		delete(r.w.rejected, c.name+"@"+src+"|"+st.D)
 		if rejectNext {
-			r.w.mu.Lock()
 			r.w.reject[c.name+"@"+src+"|"+st.D] = true
-			r.w.mu.Unlock()
 		}
+		r.w.mu.Unlock()
 		r.rcall(c, "TakeDest", "", "", st.D)
 	case "End":
 		if !msg {
